@@ -115,15 +115,17 @@ func c41SeqExec(hist []string) (string, bool, []lib.Problem) {
 			}
 			snaps = append(snaps, buf.Bytes())
 			snapCount = append(snapCount, count)
-		case "load-last", "load-first":
+		case "load-last", "load-first", "rollback-last", "rollback-first":
 			if len(snaps) == 0 {
 				break
 			}
 			k := len(snaps) - 1
-			if op == "load-first" {
+			if op == "load-first" || op == "rollback-first" {
 				k = 0
 			}
-			timing.ResetIDGenerator() // "rebuilt simulation": a fresh generator
+			if op == "load-last" || op == "load-first" {
+				timing.ResetIDGenerator() // "rebuilt simulation": a fresh generator
+			} // rollback-*: into the live generator, whatever it has handed out since
 			g := timing.GetIDGenerator().(ckpt)
 			if err := g.LoadCheckpoint(bytes.NewReader(snaps[k])); err != nil {
 				bad("load-error", "%v", err)
@@ -131,7 +133,16 @@ func c41SeqExec(hist []string) (string, bool, []lib.Problem) {
 			count = snapCount[k]
 		}
 	}
-	return fmt.Sprintf("n%d snaps%v", count, snapCount), false, probs
+	// the state key includes what the live generator would save now, so that
+	// histories are only merged when the implementation's own state agrees
+	live := "?"
+	if g, ok := timing.GetIDGenerator().(ckpt); ok {
+		var buf bytes.Buffer
+		if g.SaveCheckpoint(&buf) == nil {
+			live = buf.String()
+		}
+	}
+	return fmt.Sprintf("n%d snaps%v live=%s", count, snapCount, live), false, probs
 }
 
 func init() {
@@ -140,7 +151,7 @@ func init() {
 		Level: "model_checking",
 		Rule: "(a) stateless DFS over all goroutine interleavings (iterative preemption bounds 0,1,2,then unbounded or 3/4) of harnesses {2 threads x 2 Generate, 3 x 1, 3 x 2} x {sequential, parallel generator} x {generator pre-created, first use racing}, " +
 			"with a scheduling point before every statement of timing/idgenerator.go and at every atomic/mutex operation; oracle per schedule: all IDs non-zero and pairwise distinct. " +
-			"(b) explicit-state BFS over histories of {gen, save, load-last, load-first into a reset generator} to depth 7/9: every ID equals its position in the logical sequence (so every run and every restore continues the exact sequence 1,2,3,...). " +
+			"(b) explicit-state BFS over histories of {gen, save, load the last / first checkpoint into a reset generator, load it into the live generator (rollback)} to depth 7/9: every ID equals its position in the logical sequence (so every run and every restore continues the exact sequence 1,2,3,...). " +
 			"states = complete schedules + BFS states.",
 		Assumptions: []string{
 			"sequentially consistent memory (the cooperative scheduler does not model weak memory orderings)",
@@ -159,7 +170,7 @@ func init() {
 				return
 			}
 			lib.BFS(c, lib.BFSConfig[string]{
-				Ops:      func([]string) []string { return []string{"gen", "save", "load-last", "load-first"} },
+				Ops:      func([]string) []string { return []string{"gen", "save", "load-last", "load-first", "rollback-last", "rollback-first"} },
 				Exec:     func(h []string) (string, bool, []lib.Problem) { return c41SeqExec(h) },
 				MaxDepth: lib.Pick(c, 7, 9),
 			})
